@@ -270,6 +270,18 @@ type C02Rich struct {
 	PS  *string  `json:"ps,string"`
 }
 
+// C02Ptrs has several pointer fields of each scalar kind (what one decode
+// allocates must not be shared with what another field points to).
+type C02Ptrs struct {
+	A, B, C *bool
+	I, J    *int
+	S, T    *string
+	F, G    *float64
+	L       []*bool
+	M       map[string]*bool
+	X, Y    any
+}
+
 type c02inner struct {
 	IA int
 	IB string `json:"ib"`
@@ -288,7 +300,9 @@ type C02Emb struct {
 type C02Any interface{}
 
 func c02Type(t *tape.Tape) (reflect.Type, string) {
-	switch t.Pick(4, 5, 1, 1, 1, 1) {
+	switch t.Pick(4, 5, 1, 1, 1, 1, 2) {
+	case 6:
+		return reflect.TypeOf(C02Ptrs{}), "C02Ptrs"
 	case 5:
 		return reflect.TypeOf(C02Emb{}), "C02Emb"
 	case 0:
@@ -384,9 +398,57 @@ func c02State(seg []uint32, rt reflect.Type) (reflect.Value, int) {
 	if t.Chance(2, 3) {
 		(&gen.Values{T: t, C: gen.JSON, MaxMap: 3, MaxLen: 4}).Fill(p.Elem())
 		n := seedIfacePointers(t, p.Elem(), 0)
+		n += seedIfaceSlices(t, p.Elem())
 		return p, n + 1
 	}
 	return p, 0
+}
+
+// seedIfaceSlices (draws come after all others of the state, and a zero draw
+// means "no": recorded states keep their meaning) puts []any values whose
+// elements include non-nil pointers into empty-interface fields, and lets two
+// such fields share one slice.
+func seedIfaceSlices(t *tape.Tape, v reflect.Value) int {
+	var ifs []reflect.Value
+	var walk func(v reflect.Value, depth int)
+	walk = func(v reflect.Value, depth int) {
+		if depth > 3 {
+			return
+		}
+		switch v.Kind() {
+		case reflect.Interface:
+			if v.NumMethod() == 0 && v.CanSet() {
+				ifs = append(ifs, v)
+			}
+		case reflect.Ptr:
+			if !v.IsNil() {
+				walk(v.Elem(), depth+1)
+			}
+		case reflect.Struct:
+			for i := 0; i < v.NumField(); i++ {
+				if v.Type().Field(i).PkgPath == "" {
+					walk(v.Field(i), depth+1)
+				}
+			}
+		}
+	}
+	walk(v, 0)
+	n := 0
+	var held []reflect.Value
+	for _, f := range ifs {
+		if t.Intn(4) == 3 {
+			i, z := 7, ZInner{}
+			s := []any{&i, "s", &z, 1.5, nil, []any{&i}}[:2+t.Intn(5)]
+			f.Set(reflect.ValueOf(s))
+			held = append(held, f)
+			n++
+		}
+	}
+	if len(held) >= 2 && t.Intn(3) == 2 {
+		held[1].Set(held[0].Elem()) // two fields share one slice
+		n++
+	}
+	return n
 }
 
 type c02Step struct {
@@ -421,6 +483,8 @@ func c02TypeByName(name string) reflect.Type {
 		return reflect.TypeOf(C02Rich{})
 	case "C02Emb":
 		return reflect.TypeOf(C02Emb{})
+	case "C02Ptrs":
+		return reflect.TypeOf(C02Ptrs{})
 	case "ZRec":
 		return reflect.TypeOf(ZRec{})
 	case "map[string]any":
@@ -436,6 +500,8 @@ func c02TypeByName(name string) reflect.Type {
 	return nil
 }
 
+var c02Arena []byte
+
 func segDecode(entry int, doc []byte, x any) (err error, pan string) {
 	defer func() {
 		if e := recover(); e != nil {
@@ -444,7 +510,12 @@ func segDecode(entry int, doc []byte, x any) (err error, pan string) {
 	}()
 	// the caller recycles the buffer it passed once the call has returned (no
 	// zero-copy flag is set, so the target owns everything it holds)
-	own := append([]byte(nil), doc...)
+	// ... and it is the same buffer for every call of the run: same address, new content
+	if cap(c02Arena) < len(doc) {
+		c02Arena = make([]byte, 2*len(doc)+64)
+	}
+	own := c02Arena[:len(doc):len(doc)]
+	copy(own, doc)
 	defer func() {
 		for i := range own {
 			own[i] = '#'
@@ -506,6 +577,7 @@ func c02GenScenario(r *core.Run) *c02Scenario {
 	} else if st.Chance(2, 3) {
 		(&gen.Values{T: st, C: gen.JSON, MaxMap: 3, MaxLen: 4}).Fill(tmp.Elem())
 		seedIfacePointers(st, tmp.Elem(), 0)
+		seedIfaceSlices(st, tmp.Elem())
 	}
 	sc.State = append([]uint32(nil), st.Record()...)
 	nsteps := t.Range(2, 8)
